@@ -9,6 +9,7 @@ import (
 	"fmt"
 	"os"
 	"strings"
+	"sync"
 
 	"verifharness/sx"
 
@@ -80,6 +81,45 @@ func main() {
 		}
 		out.Case(fmt.Sprintf("TyCase %d%%N %s %s %s %s", t, hx(name), optN(back, err), hx(string(text)), optN(tb, err2)),
 			map[string]interface{}{"type": t, "name": name, "back": fmt.Sprint(back, err), "text": string(text)}, cls, true)
+	}
+	// the same conversions from eight goroutines at once (each its own stride of the codes): a conversion that goes through
+	// state shared between calls shows up as a name or text that belongs to another code
+	{
+		type conv struct {
+			t          int
+			name, text string
+			back, tb   auparse.AuditMessageType
+			e1, e2     error
+		}
+		const G = 8
+		res := make([][]conv, G)
+		var wg sync.WaitGroup
+		for g := 0; g < G; g++ {
+			wg.Add(1)
+			go func(g int) {
+				defer wg.Done()
+				for round := 0; round < 3; round++ {
+					for t := g; t < 65536; t += G * 7 {
+						ty := auparse.AuditMessageType(t)
+						c := conv{t: t, name: ty.String()}
+						c.back, c.e1 = auparse.GetAuditMessageType(c.name)
+						text, _ := ty.MarshalText()
+						c.text = string(text)
+						c.e2 = c.tb.UnmarshalText(text)
+						if round == 2 {
+							res[g] = append(res[g], c)
+						}
+					}
+				}
+			}(g)
+		}
+		wg.Wait()
+		for g := 0; g < G; g++ {
+			for _, c := range res[g] {
+				out.Case(fmt.Sprintf("TyCase %d%%N %s %s %s %s", c.t, hx(c.name), optN(c.back, c.e1), hx(c.text), optN(c.tb, c.e2)),
+					map[string]interface{}{"type": c.t, "name": c.name, "text": c.text, "converted_by": "8 goroutines at once"}, "concurrent", true)
+			}
+		}
 	}
 	// odd spellings: case mixes, the two non-ASCII runes that upper-case to ASCII,
 	// brackets, numerals with signs / leading zeros / overflow
